@@ -20,6 +20,7 @@ type Options struct {
 	SplitDepth  int
 	MaxExecs    int           // safety cap (0 = none); hitting it makes the result non-exhaustive
 	Deadline    time.Time     // wall-clock budget checked between executions (zero = none)
+	Sleep       bool          // unbounded exploration with sleep sets (partial-order reduction); requires Bound < 0
 	Replay      []int         // when set: run exactly this schedule (twice) and return
 	OnExecution func(x *Exec) // oracle, runs after the bubble finished (x.Log, x.Trace available)
 }
@@ -33,6 +34,7 @@ type Result struct {
 	MaxPoints  int
 	Outcomes   map[string]int // distinct harness observation logs
 	Exhaustive bool
+	SleepCut   int // sleep-set mode: executions cut because every enabled transition was asleep (redundant)
 	Failure    *Failure
 	InfraErr   error
 }
@@ -57,6 +59,7 @@ type explorer struct {
 	res   *Result
 	leafN int
 	stop  bool
+	sleepInit []int // sleep set installed after the prefix of the next run (sleep-set mode)
 }
 
 // Explore enumerates every schedule of body within the preemption bound.
@@ -97,6 +100,14 @@ func Explore(t *testing.T, opt Options, body func(x *Exec)) *Result {
 			a.TraceString(), a.Log, b.TraceString(), b.Log)
 		return e.res
 	}
+	if opt.Sleep {
+		if opt.Bound >= 0 {
+			e.res.InfraErr = fmt.Errorf("sched: sleep sets need an unbounded exploration")
+			return e.res
+		}
+		e.exploreSleep(nil, nil, nil, 0)
+		return e.res
+	}
 	e.explore(nil, nil, 0)
 	return e.res
 }
@@ -105,6 +116,10 @@ func (e *explorer) runRaw(prefix []int, expect [][]int) *Exec {
 	var x *Exec
 	synctest.Test(e.t, func(t *testing.T) {
 		x = newExec(prefix, expect)
+		if e.opt.Sleep && e.opt.Replay == nil {
+			x.sleepMode = true
+			x.sleepInit = e.sleepInit
+		}
 		x.ctrlGoid = goid()
 		cur = x
 		active.Store(true)
@@ -127,6 +142,10 @@ func (e *explorer) run(prefix []int, expect [][]int) *Exec {
 	if x.Err != nil {
 		e.res.InfraErr = fmt.Errorf("%v (schedule %v, trace %s)", x.Err, prefix, x.TraceString())
 		e.stop = true
+		return x
+	}
+	if x.SleepBlocked {
+		e.res.SleepCut++
 		return x
 	}
 	e.res.Outcomes[strings.Join(x.Log, " | ")]++
@@ -222,6 +241,87 @@ func (e *explorer) explore(prefix []int, expect [][]int, depth int) {
 			if e.stop {
 				return
 			}
+		}
+	}
+}
+
+// exploreSleep is the unbounded exploration with sleep sets (Godefroid): at a node, a transition that was already
+// explored from an ancestor-or-sibling position and is independent of everything taken since is "asleep" and is not
+// taken again; an execution in which every enabled transition is asleep is redundant and cut. Independence is
+// footprint-disjointness (see Acc). Every Mazurkiewicz trace still has a representative execution, so the set of
+// reachable final states - hence of observation logs decided by the order of dependent steps - is preserved.
+func (e *explorer) exploreSleep(prefix []int, expect [][]int, sleepInit []int, depth int) {
+	if e.stop {
+		return
+	}
+	if e.opt.MaxExecs > 0 && e.res.Executions >= e.opt.MaxExecs {
+		e.res.Exhaustive = false
+		e.stop = true
+		return
+	}
+	if !e.opt.Deadline.IsZero() && time.Now().After(e.opt.Deadline) {
+		e.res.Exhaustive = false
+		e.stop = true
+		return
+	}
+	if depth == e.opt.SplitDepth && e.opt.Shards > 1 {
+		idx := e.leafN
+		e.leafN++
+		if idx%e.opt.Shards != e.opt.Shard {
+			return
+		}
+	}
+	e.sleepInit = sleepInit
+	x := e.run(prefix, expect)
+	if e.stop {
+		return
+	}
+	if depth < e.opt.SplitDepth && e.opt.Shards > 1 && e.opt.Shard != 0 {
+		e.res.Executions--
+		e.res.Points -= len(x.Trace)
+		if x.SleepBlocked {
+			e.res.SleepCut--
+		} else {
+			k := strings.Join(x.Log, " | ")
+			if e.res.Outcomes[k]--; e.res.Outcomes[k] == 0 {
+				delete(e.res.Outcomes, k)
+			}
+		}
+	}
+	trace := x.Trace
+	exp := make([][]int, len(trace))
+	for i := range trace {
+		exp[i] = trace[i].Enabled
+	}
+	for i := len(prefix); i < len(trace); i++ {
+		p := trace[i]
+		done := map[int]bool{}
+		for _, id := range p.Sleep {
+			done[id] = true
+		}
+		done[p.Enabled[p.Chosen]] = true
+		for alt := 0; alt < len(p.Enabled); alt++ {
+			id := p.Enabled[alt]
+			if done[id] {
+				continue
+			}
+			var child []int
+			for s := range done {
+				if fs, ok := p.Foot[s]; ok && Independent(fs, p.Foot[id]) {
+					child = append(child, s)
+				}
+			}
+			sort.Ints(child)
+			np := make([]int, i+1)
+			for j := 0; j < i; j++ {
+				np[j] = trace[j].Chosen
+			}
+			np[i] = alt
+			e.exploreSleep(np, exp[:i+1], child, depth+1)
+			if e.stop {
+				return
+			}
+			done[id] = true
 		}
 	}
 }
